@@ -32,10 +32,10 @@ def run_sessions(sessions, name, env=None, timeout=900):
 STATS = {}      # totals reported by the harness over all runs of this check
 
 
-def validate(trace, module="EggAbs_Trace", timeout=1500):
+def validate(trace, module="EggAbs_Trace", timeout=1500, cfg=None):
     """TLC trace validation; returns (events, bads) where bads = [(index0, code)]"""
     events = core.read_ndjson(trace)
-    res = core.run_tlc(module, workers=1, timeout=timeout, env={"TRACE": os.path.abspath(trace)}, xmx="6g", dfs=True,
+    res = core.run_tlc(module, cfg=cfg, workers=1, timeout=timeout, env={"TRACE": os.path.abspath(trace)}, xmx="6g", dfs=True,
                        coverage=False, metadir=core.workdir("trace_" + re.sub(r"\W+", "_", trace)[-60:]))
     consumed = max(res.depth - 1, 0)
     if res.invariant is not None or not res.noerror or consumed != len(events):
